@@ -124,7 +124,7 @@ fn nontrivial(rs: &Vec<Res>) -> bool {
 }
 
 pub fn run(ctx: &Ctx) {
-    ctx.set_rule("generated descriptors of every kind (Memory32Fixed, IO, extended Interrupt, generic Register over all address spaces/access sizes, word/dword/qword address space for memory x 4 cacheabilities x rw / IO / bus numbers, optional translation; min <= max with a representable range size) and templates of 0..470 descriptors in any order; an independent walker steps through the buffer payload by the descriptors' own length fields; every descriptor must start with the specification tag, carry a length field equal to its payload, hold the caller's values at the specification offsets (range length = max - min + 1, MinFixed|MaxFixed set); the template must be Buffer(PkgLength to the end, declared size == payload, payload == children in order + 79 00). Exhaustive: all flag combinations of every kind, every payload size 0..4200 built from 8- and 9-byte items. Non-trivial = template with >= 2 descriptors of >= 2 kinds; distinct by hash.");
+    ctx.set_rule("generated descriptors of every kind (Memory32Fixed, IO, extended Interrupt, generic Register over all address spaces/access sizes, word/dword/qword address space for memory x 4 cacheabilities x rw / IO / bus numbers, optional translation; min <= max with a representable range size) and templates of 0..470 descriptors in any order; an independent walker steps through the buffer payload by the descriptors' own length fields; every descriptor must start with the specification tag, carry a length field equal to its payload, hold the caller's values at the specification offsets (range length = max - min + 1, MinFixed|MaxFixed set); the template must be Buffer(PkgLength to the end, declared size == payload, payload == children in order + 79 00). Exhaustive: all flag combinations of every kind, every payload size 0..4200 built from 8- and 9-byte items. Non-trivial = template with >= 2 descriptors of >= 2 kinds; distinct by hash. Every descriptor is serialised after a discarded serialisation and through four sinks (vector, byte-only, generic table, package builder); a sink that delivers other bytes is the one judged.");
     ctx.assume("ranges (0, MAX) whose size is not representable are C18's subject and are not generated here");
     // directed: all flag combinations
     let mut dir: Vec<Vec<Res>> = Vec::new();
